@@ -12,6 +12,26 @@ import (
 
 // fieldStores: values stored into fields of struct type (pkgPath, name) anywhere in fn (not nested closures).
 func fieldStores(fn *ssa.Function, pkgPath, name string) map[string][]*ssa.Store {
+	out := fieldStoresIn(fn, pkgPath, name)
+	// the private helpers (and their closures) that belong to this operation: a struct may be filled in a helper
+	if lastCtx != nil && fn.Parent() == nil {
+		for _, h := range lastCtx.opFuncs(fn)[1:] {
+			var walk func(f *ssa.Function)
+			walk = func(f *ssa.Function) {
+				for k, v := range fieldStoresIn(f, pkgPath, name) {
+					out[k] = append(out[k], v...)
+				}
+				for _, a := range f.AnonFuncs {
+					walk(a)
+				}
+			}
+			walk(h)
+		}
+	}
+	return out
+}
+
+func fieldStoresIn(fn *ssa.Function, pkgPath, name string) map[string][]*ssa.Store {
 	out := map[string][]*ssa.Store{}
 	for _, b := range fn.Blocks {
 		for _, in := range b.Instrs {
@@ -491,8 +511,10 @@ func ruleC03_3(c *Ctx, r *Rep) {
 	if del := r.Anchor("C03.3", fnDeliver); del != nil {
 		r.noValueUse(c, "C03.3", del)
 		for _, ci := range c.callersOf(del) {
-			o := c.Key(top(ci.Parent()))
-			r.Check("C03.3", "C03.3:caller:"+o, ci.Pos(), in(o, fnPublish, fnDeadLetter), "", "deliverToSubscription is called from "+o+": deliveries are (re)created outside publish and dead-letter forwarding")
+			for _, ow := range c.effectiveOwners(ci.Parent(), 0) {
+				o := c.Key(ow)
+				r.Check("C03.3", "C03.3:caller:"+o, ci.Pos(), in(o, fnPublish, fnDeadLetter), "", "deliverToSubscription is called from "+o+": deliveries are (re)created outside publish and dead-letter forwarding")
+			}
 		}
 	}
 }
